@@ -10,25 +10,40 @@ import framework as F
 ID = "C10"
 GEN = ["Bounding"]
 LEVEL = "proof"
-TECHNIQUE = ("Coq proof over the reals about the kernels translated from inferno/functional/bounding.py and a hand-written model "
-             "of Accumulator/Updater/Updatable (apply = old + U(reduce pos) - L(reduce neg), permutation invariance, cache "
-             "coherence, no-op laws, range invariants by induction over update histories); model tied to the code by "
-             "re-translation of the kernels and a differential correspondence check")
-LEVEL_TEXT = ("Machine-checked proofs (Coq, real-number instance) that the model of Accumulator/Updater applies "
-              "old + bound_upper(reduce(pos)) - bound_lower(reduce(neg)) element-wise for every number and size of parts and "
-              "every binding form, that the result is invariant under any permutation of the contributions, that empty "
-              "accumulators / a cleared updater leave parameters untouched, that (scaled) multiplicative and scaled power "
-              "(order >= 1, real exponents) dependence keep a parameter inside [min, max] over arbitrarily long histories, "
-              "that sharp dependence never moves a parameter further beyond a reached limit, and that a reduction passed at "
-              "construction is the one used.  The bounding kernels in the theorems are re-translated from the source on every "
-              "run; the stateful model is validated against the real classes by a differential correspondence check over "
-              "seeded operation sequences; a plain-Python evaluation of the property statement is the direct oracle.")
-LEVEL_NOTE = ("Trusted: Coq kernel + stdlib real axioms; translator for bounding.py; hand-written model C10/Updater.v validated by "
-              "correspondence only (generator coverage); torch.stack/sum/mean/amax/amin, nn.ParameterList, functools.cache and "
-              "property/setattr dispatch modelled by their meaning; reductions restricted to column-wise functions; tensors "
-              "combined element-wise only at equal sizes (no broadcasting). NOT proved: floating-point rounding (theorems are "
-              "over R); x**y for a negative base (Num.pow is specified for base >= 0: parameters outside the limits under power "
-              "dependence are covered by the oracle only); a dead parent weak reference.")
+TECHNIQUE = ("Coq proof over the reals about the bounding kernels re-translated from inferno/functional/bounding.py and a "
+             "hand-written model of Accumulator/Updater/Updatable: element-wise apply_spec, permutation invariance of whole "
+             "contribution histories, cache coherence and range preservation as invariants over arbitrary operation "
+             "sequences (generic invariant principle + induction), no-op laws; model tied to the code by translation of the "
+             "kernels and a differential correspondence check")
+LEVEL_TEXT = ("Machine-checked proofs (Coq, real-number instance; 51 obligations) that the model of Accumulator/Updater sets "
+              "every managed parameter element to old + bound_upper(reduce(pos)) - bound_lower(reduce(neg)) for every number "
+              "and size of pending parts, every binding form (default / five full kernels with optional limits / any of the ten "
+              "half kernels in either slot) and every column-wise reduction (apply_spec, update_spec incl. frame and clearing); "
+              "that the parameters after update() are the same for EVERY permutation of the contributions of all trainers "
+              "across all parameters when the reductions are symmetric (sum, mean, amax, amin, l2 proved symmetric; a "
+              "non-symmetric custom reduction proved order dependent); that caches stay coherent over arbitrary operation "
+              "sequences without post-construction reduction changes; that nothing accumulated / a second update after the "
+              "default clear leaves the module state unchanged (the latter for every state, no hypotheses); that full "
+              "multiplicative, scaled multiplicative and scaled power (any real order >= 1) dependence keep a parameter inside "
+              "[min, max] after ANY admissible history of any length (interleaved contributions with magnitudes <= 1 resp. "
+              "<= range, reads, update / updatesome / apply / clear, operations on other parameters), also for arbitrary "
+              "reductions under the hypothesis on the reduced magnitudes; that sharp dependence never moves an element "
+              "further beyond a reached limit (and is not a clamp); that a reduction passed at construction is installed on "
+              "every accumulator and is the one apply_spec uses.  The kernels in the theorems are the definitions generated "
+              "from the source on every run; the stateful model is validated against the real classes (LinearDense and a "
+              "minimal Updatable) by a differential correspondence check; a plain-Python evaluation of the property statement "
+              "is the direct oracle.")
+LEVEL_NOTE = ("Trusted: Coq kernel + stdlib real axioms (sig_forall_dec, sig_not_dec, functional_extensionality_dep, classic); "
+              "translator for bounding.py; hand-written model C10/Updater.v validated by correspondence only (generator "
+              "coverage); torch.stack/sum/mean/amax/amin, nn.ParameterList, functools.cache and property/setattr dispatch "
+              "modelled by their meaning; reductions restricted to column-wise functions; tensors combined element-wise only at "
+              "equal sizes (no broadcasting); `updater.x = ...` for an unmanaged name not modelled. NOT proved: floating-point "
+              "rounding (theorems are over R; 'up to rounding' is covered by the oracle's 1e-9 comparison of order-permuted "
+              "twins); x**y for a negative base (Num.pow is specified for base >= 0: parameters outside the limits under "
+              "power dependence are covered by the oracle only); a dead parent weak reference; keyword errors of the "
+              "bounding functions (missing power / range). Observation (outside the property statement, proved as "
+              "reduction_change_keeps_stale_cache and seen on the real class): Accumulator.reduction() does not clear the "
+              "cached reductions, so a change of reduction after a read is ignored until the next append/delete.")
 HEADER = ("From Coq Require Import List ZArith Bool PrimFloat.\n"
           "From Inferno Require Import Base.Num Base.NumF C10.Updater C10.UpdaterExec.\n"
           "Import ListNotations.\nOpen Scope Z_scope.\n")
@@ -750,6 +765,7 @@ class Oracle:
         self.U = None
         self.fail = None
         self.stale_obs = 0
+        self.mode, self.stale_hits = "fresh", 0
         self.report_stale = report_stale
         self.checks = Counter()
 
@@ -776,19 +792,42 @@ class Oracle:
             new[i] = a
         self.U = new
 
-    # value of one side as the property demands it, tolerating (and counting) the stale-cache behaviour
-    def side_value(self, step, a, side, observed=None):
+    # value of one side as the property demands it.  Accumulator.reduction() does not clear the cached
+    # reductions: when a reduction was changed after a read, the judgement is first made with the fresh value; only if
+    # that fails it is repeated with the value cached under the old reduction (see with_stale_retry)
+    def side_value(self, step, a, side):
         fresh = a.reduced(side)
         if side in a.stale and a.cached[side]:
             old = a.reduced(side, a.stale[side])
             differs = not ((fresh is None and old is None) or (fresh is not None and old is not None and closev(fresh, old)))
             if differs:
-                self.stale_obs += 1
-                if self.report_stale:
-                    self.bad(step, "stale_reduction_cache", expected=fresh, stale=old)
-                raise Unjudged
+                self.stale_hits += 1
+                if self.mode == "stale":
+                    return old
         a.cached[side] = True
         return fresh
+
+    def with_stale_retry(self, j, fn):
+        if self.fail is not None:
+            return fn()
+        st = (copy.deepcopy(self.P), copy.deepcopy(self.U), Counter(self.checks))
+        self.mode, self.stale_hits = "fresh", 0
+        fn()
+        if self.fail is not None and self.stale_hits:
+            fresh_fail = self.fail
+            self.P, self.U, self.checks, self.fail = st[0], st[1], st[2], None
+            self.mode = "stale"
+            try:
+                fn()
+            finally:
+                self.mode = "fresh"
+            if self.fail is None:
+                self.stale_obs += 1          # the implementation used the stale cached reduction
+                if self.report_stale:
+                    self.fail = dict(step=j, op=self.case["ops"][j], kind="stale_reduction_cache",
+                                     judged_with_current_reduction=fresh_fail)
+            else:
+                self.fail = fresh_fail
 
     def expect_apply(self, step, i, x):
         a = self.U[i]
@@ -891,47 +930,54 @@ class Oracle:
                 a = U[op[1]]
                 a.bind = ("default",) if op[2] is None else ("full", op[2], op[3], op[4])
             elif k in ("getpos", "getneg"):
-                a = U[op[1]]
-                side = "pos" if k == "getpos" else "neg"
-                exp = self.side_value(j, a, side)
-                got = None if out[1][0] == 1 else dec_t(out[1][1])
-                self.checks["reduce_value"] += 1
-                if (exp is None) != (got is None) or (exp is not None and not (
-                        closev(exp, got) or any(v != v for v in exp + got))):
-                    self.bad(j, "reduce_value", expected=exp, got=got, red=a.red)
+                def body():
+                    a = self.U[op[1]]
+                    side = "pos" if k == "getpos" else "neg"
+                    exp = self.side_value(j, a, side)
+                    got = None if out[1][0] == 1 else dec_t(out[1][1])
+                    self.checks["reduce_value"] += 1
+                    if (exp is None) != (got is None) or (exp is not None and not (
+                            closev(exp, got) or any(v != v for v in exp + got))):
+                        self.bad(j, "reduce_value", expected=exp, got=got, red=a.red)
+                self.with_stale_retry(j, body)
             elif k in ("accupdate", "accforward"):
-                i = op[1]
-                x = self.P[i]
-                a, p, n, d = self.expect_apply(j, i, x)
-                got = None if out[1][0] == 1 else dec_t(out[1][1])
-                if k == "accforward":
-                    d = x if d is None else ([u + v for u, v in zip(x, d)] if len(d) == len(x) else None)
-                    if d is None:
-                        raise Unjudged
-                self.checks["output_value"] += 1
-                if (d is None) != (got is None) or (d is not None and not (
-                        closev(d, got) or any(v != v for v in d + got))):
-                    self.bad(j, "output_value", expected=d, got=got, bind=a.bind, red=a.red)
+                def body():
+                    i = op[1]
+                    x = self.P[i]
+                    a, p, n, d = self.expect_apply(j, i, x)
+                    got = None if out[1][0] == 1 else dec_t(out[1][1])
+                    if k == "accforward":
+                        d = x if d is None else ([u + v for u, v in zip(x, d)] if len(d) == len(x) else None)
+                        if d is None:
+                            raise Unjudged
+                    self.checks["output_value"] += 1
+                    if (d is None) != (got is None) or (d is not None and not (
+                            closev(d, got) or any(v != v for v in d + got))):
+                        self.bad(j, "output_value", expected=d, got=got, bind=a.bind, red=a.red)
+                self.with_stale_retry(j, body)
             elif k in ("update", "updatesome", "apply"):
-                if U is None:
-                    names = []
-                elif k == "update" or (k == "apply" and not op[1]):
-                    names = list(U.keys())
-                else:
-                    names = op[1]
-                clear = op[1] if k == "update" else (op[2] if k == "updatesome" else False)
-                for i in names:
-                    before = self.P[i]
-                    self.judge_apply(j, i, before, params_after[i])
-                    self.P[i] = params_after[i]
-                    if clear and k == "updatesome":
-                        a = self.U[i]
-                        a.pos, a.neg = [], []
-                        a.touch("pos"); a.touch("neg")
-                if clear and k == "update":
-                    for a in (U or {}).values():
-                        a.pos, a.neg = [], []
-                        a.touch("pos"); a.touch("neg")
+                def body():
+                    U = self.U
+                    if U is None:
+                        names = []
+                    elif k == "update" or (k == "apply" and not op[1]):
+                        names = list(U.keys())
+                    else:
+                        names = op[1]
+                    clear = op[1] if k == "update" else (op[2] if k == "updatesome" else False)
+                    for i in names:
+                        before = self.P[i]
+                        self.judge_apply(j, i, before, params_after[i])
+                        self.P[i] = params_after[i]
+                        if clear and k == "updatesome":
+                            a = self.U[i]
+                            a.pos, a.neg = [], []
+                            a.touch("pos"); a.touch("neg")
+                    if clear and k == "update":
+                        for a in (U or {}).values():
+                            a.pos, a.neg = [], []
+                            a.touch("pos"); a.touch("neg")
+                self.with_stale_retry(j, body)
             else:
                 raise AssertionError(k)
             # frame: parameters the operation does not apply to are bit-identical
